@@ -194,6 +194,9 @@ func runFailover(c FCase) *pbt.Result {
 	}
 	// audit of everything every server received
 	time.Sleep(20 * time.Millisecond)
+	for _, p := range peers {
+		p.settle(-1)
+	}
 	seen := map[int]string{}
 	for pi, p := range peers {
 		p.mu.Lock()
